@@ -15,7 +15,7 @@ type Finding struct {
 	Status    string `json:"status"` // known | fixed
 	Property  string `json:"property"`
 	Signature string `json:"signature"`
-	Match     string `json:"match,omitempty"` // exact (default) | prefix
+	Match     string `json:"match,omitempty"` // exact (default) | prefix | contains
 	What      string `json:"what"`
 	Commit    string `json:"commit,omitempty"`
 }
@@ -40,7 +40,8 @@ func (f *Findings) Match(prop, sig string) *Finding {
 		if k.Status != "known" || k.Property != prop {
 			continue
 		}
-		if k.Signature == sig || (k.Match == "prefix" && strings.HasPrefix(sig, k.Signature)) {
+		if k.Signature == sig || (k.Match == "prefix" && strings.HasPrefix(sig, k.Signature)) ||
+			(k.Match == "contains" && strings.HasPrefix(sig, prop+"/race/") && strings.Contains(sig, k.Signature)) {
 			return k
 		}
 	}
